@@ -44,6 +44,16 @@ taken `ErrReadOnly` the token is `SetReadOnly`'s, which gives it back itself whe
 `closeC`).  Before 832d000 (`Cfg.before832`, flags `srSetsWriteLocking` …) `SetReadOnly` set `compWriteLocking`
 itself and both take-backs could run for one token.
 
+`Close` and the persistent-error loop (wp51, D42).  *As found* (`Cfg.asFound`: `closeSel = false`, `m = .asCoded false`):
+on `closeC` the machine, holding the lock for `compWriteLocking`, gives it back (`<-db.writeLockC`, step `ehTake`) and
+`Close` takes it with a plain send (`clAcq`) — or a writer that was parked in its `select` does (`selTok`).  *Now*
+(`Cfg.repaired`: `closeSel = true`, `m = .asCoded true`): the machine keeps the lock and closes `compLockedC`; `Close`
+waits in `select { case db.writeLockC <- struct{}{}: case <-db.compLockedC: }`.  The first arm is `clAcq`; the second
+is `clAcqKept`, which is at the same time the machine's `close(db.compLockedC); return` (label `closing` → `exited`):
+closing a channel never blocks and only `Close`'s `select` looks at `compLockedC`, so the two are one step of the
+model; the ghost ownership of the token passes from the machine (`ehTok`) to `Close` (`closeTok`), the token itself
+never leaves `writeLockC`.
+
 Abstractions: the write-merge protocol is C10 (here a `Put` is a non-merging writer); `tcompPauseC` is not
 modelled; a compaction goroutine works only on waited commands (`compTriggerWait` / `compTriggerRange`);
 when a compaction goroutine exits it does not ack its waiter with `ErrClosed` — the waiter's own `closeC`
@@ -75,20 +85,29 @@ structure Cfg where
   noerrROSetsLock : Bool
   /-- `haserr`: likewise -/
   haserrROSetsLock : Bool
+  /-- `Close` acquires the write lock with `select { case db.writeLockC <- struct{}{}: case <-db.compLockedC: }`
+  (since the repair of D42; before: the plain send) -/
+  closeSel : Bool
 deriving DecidableEq, Repr
 
 /-- every release in place, `compactionError` as coded, the hand-over of the token from `SetReadOnly` to
 `compactionError` as coded since 832d000: the source as it is now -/
 def Cfg.repaired : Cfg :=
   { commitUnlocksOnError := true, openTxReleasesOnError := true, largeBatchDiscardsOnCommitError := true,
-    setReadOnlyReleasesOnClose := true, m := .asCoded, roParks := true, callers := true,
-    srSetsWriteLocking := false, srPerErrGivesBack := true, noerrROSetsLock := true, haserrROSetsLock := true }
+    setReadOnlyReleasesOnClose := true, m := .asCoded true, roParks := true, callers := true,
+    srSetsWriteLocking := false, srPerErrGivesBack := true, noerrROSetsLock := true, haserrROSetsLock := true,
+    closeSel := true }
+
+/-- the source as found by wp40/wp51 (after 832d000, before the repair of D42): on `closeC` the persistent-error
+loop gives the write lock back and `Close` takes it with a plain send — or a parked writer does
+(`C09.readonly_write_slips_through_on_close`) -/
+def Cfg.asFound : Cfg := { Cfg.repaired with m := .asCoded false, closeSel := false }
 
 /-- the source between the repair of D23 and 832d000: `SetReadOnly` sets `compWriteLocking` itself, and both
 take-backs of that token — `SetReadOnly`'s `select { case <-db.writeLockC: default: }` on `closeC` and the
 machine's `<-db.writeLockC` — can run for the same token (`C09.write_lock_lost`) -/
 def Cfg.before832 : Cfg :=
-  { Cfg.repaired with srSetsWriteLocking := true, srPerErrGivesBack := false, noerrROSetsLock := false,
+  { Cfg.asFound with srSetsWriteLocking := true, srPerErrGivesBack := false, noerrROSetsLock := false,
                       haserrROSetsLock := false }
 
 /-- the code as it was when the model was first written: none of the four releases -/
@@ -118,7 +137,8 @@ def codeCfg : Cfg :=
     setReadOnlyReleasesOnClose := Gen.lkSetReadOnlyReleasesOnClose, m := CompErr.codeM,
     roParks := Gen.roCompactionParks, callers := Gen.ceCallersAsModelled,
     srSetsWriteLocking := Gen.lkSetReadOnlySetsWriteLocking, srPerErrGivesBack := Gen.lkSetReadOnlyPerErrGivesBack,
-    noerrROSetsLock := Gen.ceNoerrROSetsLock, haserrROSetsLock := Gen.ceHaserrROSetsLock }
+    noerrROSetsLock := Gen.ceNoerrROSetsLock, haserrROSetsLock := Gen.ceHaserrROSetsLock,
+    closeSel := Gen.lkCloseSelectsCompLocked }
 
 export CompErr (Eh EK)
 open CompErr (recvs next offErr offPer offLock closes onClose)
@@ -514,9 +534,14 @@ inductive Step (cfg : Cfg) : Bool → St → St → Prop
       Step cfg false s { s with ws := s.ws.set i .clBody, trlk := true }
   | clBody (s : St) (i : Nat) (hi : s.ws[i]? = some .clBody) :
       Step cfg false s { s.setDone with ws := s.ws.set i .clAcq, trlk := false }
-  /-- `db.writeLockC <- struct{}{}` — no alternative -/
+  /-- `db.writeLockC <- struct{}{}` — as found without alternative, now the first arm of `Close`'s `select` -/
   | clAcq (s : St) (i : Nat) (hi : s.ws[i]? = some .clAcq) (ht : s.tok = false) :
       Step cfg false s { s with ws := s.ws.set i .clWait, tok := true, closeTok := true }
+  /-- `case <-db.compLockedC:` of `Close`'s `select`, together with the machine's `close(db.compLockedC); return` in
+  the `closeC` case of `hasperr`: the lock the machine holds for `compWriteLocking` is now held by `Close` -/
+  | clAcqKept (s : St) (i : Nat) (hi : s.ws[i]? = some .clAcq) (he : s.eh = .closing)
+      (hk : cfg.m.hasperrKeepsLock = true) (hs : cfg.closeSel = true) :
+      Step cfg false s { s with ws := s.ws.set i .clWait, eh := .exited, ehTok := false, closeTok := true }
   /-- `db.closeW.Wait()` -/
   | clWait (s : St) (i : Nat) (hi : s.ws[i]? = some .clWait) (hm : s.mc = .exited) (ht : s.tc = .exited) :
       Step cfg false s { s with ws := s.ws.set i (.ret true) }
@@ -525,11 +550,12 @@ inductive Step (cfg : Cfg) : Bool → St → St → Prop
   /-- `case db.writeLockC <- struct{}{}: db.compWriteLocking = true` -/
   | ehAcquire (s : St) (he : offLock cfg.m s.eh = true) (ht : s.tok = false) :
       Step cfg false s { s with tok := true, ehTok := true, cwl := true }
-  /-- `case <-db.closeC:` … `return`, in `hasperr` after `if db.compWriteLocking { <-db.writeLockC }` -/
+  /-- `case <-db.closeC:` … `return`, in `hasperr` after `if db.compWriteLocking { <-db.writeLockC }` (as found: `ehTake`)
+  resp. `if db.compWriteLocking { close(db.compLockedC) }` (now: `clAcqKept`) -/
   | ehClose (s : St) (he : closes cfg.m s.eh = true) (hc : s.closed = true) :
       Step cfg false s { s with eh := onClose cfg.m s.eh s.cwl }
-  /-- `<-db.writeLockC` in the `closeC` case of `hasperr`: a blocking receive, whatever token is there -/
-  | ehTake (s : St) (he : s.eh = .closing) (ht : s.tok = true) :
+  /-- `<-db.writeLockC` in the `closeC` case of `hasperr` (as found): a blocking receive, whatever token is there -/
+  | ehTake (s : St) (he : s.eh = .closing) (ht : s.tok = true) (hg : cfg.m.hasperrGivesBack = true) :
       Step cfg false s { s with eh := .exited, tok := false, ehTok := false }
   -- ### the compaction goroutines
   | bgExitIdle (s : St) (b : Bool) (hb : s.bg b = .idle) (hc : s.closed = true) :
